@@ -84,7 +84,9 @@ func renderInstant(r *rand.Rand, t time.Time) string {
 
 var malformedTimes = []string{"2024-05-17", "2024-05-17T10:30:00", "17/05/2024", "yesterday", "2024-13-01T00:00:00Z",
 	"2024-02-30T00:00:00Z", "2024-05-17 10:30:00Z", "2024-05-17T10:30:00+0100", "2024-05-17T25:00:00Z", " 2024-05-17T10:30:00Z",
-	"2024-05-17T10:30:00Z ", "1715941800", "2024-05-17T10:30:60Z", "2024-05-17t10:30:00z"}
+	"2024-05-17T10:30:00Z ", "1715941800", "2024-05-17T10:30:60Z", "2024-05-17t10:30:00z",
+	// white space only / one character / truncated: a non-empty value that gets past "is it set?" checks
+	" ", "\t", "  ", "\n", "Z", "T", "-", "+", ":", "2", "2024", "2024-05-17T", "2024-05-17T10:30:00+", "2024-05-17T10:30:00.", "2024-05-17T10:30:00.Z"}
 
 type fault struct {
 	name   string // which check it violates
